@@ -356,7 +356,14 @@ class SR:
         if s.tag and o.tag and s.tag[0] == 'sqrt' and o.tag[0] == 'sqrt':
             return SB(f(s.tag[1], o.tag[1]))
         if OPTS.get('sympy_normalise'):
-            return SB(f(_normalise(s.e - o.e), z3.RealVal(0)))
+            r = _normalise(s.e - o.e)
+            if OPTS.get('cmp_clear_den') and z3.is_app_of(r, z3.Z3_OP_DIV):
+                # num/den ~ 0 with den != 0 (every division forked on a zero divisor): decide on the sign of den,
+                # so that the query stays linear when num and den are
+                num, den = r.arg(0), r.arg(1)
+                zero = z3.RealVal(0)
+                return SB(z3.Or(z3.And(den > 0, f(num, zero)), z3.And(den < 0, f(-num, zero))))
+            return SB(f(r, z3.RealVal(0)))
         return SB(f(s.e, o.e))
 
     def __eq__(s, o):
